@@ -343,6 +343,11 @@ func (fv *FuncVerifier) assign(st *State, lhs ast.Expr, v Val) {
 		path := sel.Index()
 		base := l.X
 		bt := fv.typeOf(base)
+		if tgt := fv.aliasTarget(base); tgt != nil {
+			// write through an interior-pointer alias: update the enclosing object
+			base = tgt
+			bt = fv.typeOf(tgt)
+		}
 		fv.assignField(st, base, bt, path, v, text)
 	case *ast.StarExpr:
 		p := fv.eval(st, l.X)
